@@ -259,7 +259,7 @@ func driveReaderPat(src io.Reader, c rcfg, bufs []int, pat string, limit int) (e
 func runRDD(c *ctx, cfg rcfg, fs []sframe, spec, tail, bufs, pat string) {
 	w := wireOf(fs)
 	src := newChunkReader(w, spec, tail)
-	evs, partial, err := driveReaderPat(src, cfg, intsSpec(bufs), pat, 2*len(w)+100)
+	evs, partial, err := driveReaderPat(src.R(), cfg, intsSpec(bufs), pat, 2*len(w)+100)
 	c.emit("RDD %s %s %s %s %s %s -> %s %s %s", cfg.tok(), framesTok(fs), spec, tail, bufs, pat, eventsTok(evs), hx(partial), readErrClass(err))
 }
 
@@ -273,9 +273,9 @@ func runRD(c *ctx, kind string, cfg rcfg, fs []sframe, cut string, spec, tail, b
 		}
 	}
 	src := newChunkReader(w, spec, tail)
-	evs, partial, err := driveReader(src, cfg, intsSpec(bufs), 2*len(w)+100)
+	evs, partial, err := driveReader(src.R(), cfg, intsSpec(bufs), 2*len(w)+100)
 	c.emit("%s %s %s %s %s %s %s -> %s %s %s %d", kind, cfg.tok(), framesTok(fs), cut, spec, tail, bufs,
-		eventsTok(evs), hx(partial), readErrClass(err), src.consumed)
+		eventsTok(evs), hx(partial), readErrClass(err), src.used())
 }
 
 // RM: repeated wsutil.ReadMessage on one source
@@ -292,7 +292,7 @@ func runRM(c *ctx, kind string, state byte, fs []sframe, cut string, spec, tail 
 	var err error
 	for i := 0; i < len(fs)+2; i++ {
 		var msgs []wsutil.Message
-		msgs, err = wsutil.ReadMessage(src, ws.State(state), nil)
+		msgs, err = wsutil.ReadMessage(src.R(), ws.State(state), nil)
 		for j, m := range msgs {
 			inter := j < len(msgs)-1 || err != nil
 			evs = append(evs, event{byte(m.OpCode), inter, false, m.Payload})
